@@ -89,6 +89,8 @@ def run(ctx):
         _gen_replay(ctx, "roundtrip", 4 if thorough else 3, "FALSE", 0, "TRUE", "replay-roundtrip", reopen=True)
         ctx.cov["exhaustive"] = True
         _traces(ctx, "boundary", "trace-boundary", sizes=[999, 1000, 1001, 2001] + ([2002, 3000] if thorough else []), must=("Exec", "Schema", "AddRows"))
+        # tens of thousands of rows in low-cardinality columns (bitmaps of several KiB each, blocks of exactly 4096 rows)
+        _traces(ctx, "large", "trace-large", sizes=[8192, 30000] + ([8193, 12288, 70000] if thorough else []), must=("Exec", "AddRows"))
         _traces(ctx, "small", "trace-small", runs=10 if thorough else 4)
     elif pid == "C08":
         ctx.cov["rule"] = ("MC_Lib: caller-held Query objects executed repeatedly on two indexes, answers = ExecSpec and visible fields unchanged "
